@@ -55,7 +55,7 @@ function loadPackage (repo) {
 }
 
 // frames of the files under test (not the harness caller, not node internals)
-function isMine (p) { return p.startsWith('/w/') || p.startsWith('/abs/') || /(^|\/)(one\.js|tw.\.js|orig\.ts|a\.ts|b\.ts|only\.ts)$/.test(p) }
+function isMine (p) { return p.startsWith('/w/') || p.startsWith('/abs/') || /(^|\/)(one\.js|tw[^/]*\.js|orig\.ts|a\.ts|b\.ts|only\.ts)$/.test(p) }
 
 function frameOfLine (line) {
   // "(path:line:col)" or "at path:line:col"; an eval frame is located by its eval origin
